@@ -89,6 +89,8 @@ def _worker(args):
                errors=[], queries=0, solver_s=0.0, samples=[], nontrivial=0, validated=0, notes=[],
                params=_jsonable(g.get('params', {})))
     try:
+        from . import encode as _enc
+        _enc.DEFAULT_QV[0] = bool(g.get('quotient_vars', False))
         ex = sched.Explorer(g['harness'], g.get('params', {}), max_paths=g.get('max_paths', 400),
                             branch_timeout_ms=g.get('branch_timeout_ms', 5000))
         paths = ex.explore()
